@@ -546,7 +546,7 @@ func c12Body(ctx *Ctx, rows *c12Rows) error {
 				}
 			}
 			// ---- error paths
-			for _, mode := range []string{"herr", "foreign"} {
+			for _, mode := range []string{"herr", "foreign", "herrresp"} {
 				req := J{"method": strings.ToUpper(o.Method), "url": "http://h" + strings.Replace(o.Path, "{id}", "42", 1)}
 				if len(o.Bodies) > 0 {
 					req["headers"] = [][2]string{{"Content-Type", o.Bodies[0]}}
@@ -562,6 +562,9 @@ func c12Body(ctx *Ctx, rows *c12Rows) error {
 				}
 				opt := J{"sel": 0, "status": 200, "ctype": "image/png", "errh": true}
 				opt[mode] = true
+				if mode == "herrresp" {
+					opt["herr"] = true // the handler returns a response object and an error: the error decides
+				}
 				if mode == "foreign" {
 					opt["smw"] = 1
 				}
@@ -580,7 +583,7 @@ func c12Body(ctx *Ctx, rows *c12Rows) error {
 					st = int(s)
 				}
 				if len(errs) == 0 && st < 400 {
-					ctx.Res.Violate("error-path:"+k.fw+":"+mode, fmt.Sprintf("%s: a %s does not reach the error path (status %d, no error reported)", o.ID, map[string]string{"herr": "handler error", "foreign": "foreign response type"}[mode], st), J{"doc": doc, "fw": k.fw, "op": o.ID})
+					ctx.Res.Violate("error-path:"+k.fw+":"+mode, fmt.Sprintf("%s: a %s does not reach the error path (status %d, no error reported)", o.ID, map[string]string{"herr": "handler error", "foreign": "foreign response type", "herrresp": "handler error that comes with a response object"}[mode], st), J{"doc": doc, "fw": k.fw, "op": o.ID})
 				}
 			}
 		}
